@@ -191,6 +191,9 @@ func init() {
 			for i := range c02StrSigma {
 				s = append(s, fmt.Sprintf("str:%d", i))
 			}
+			for i := range c02CommentSigma {
+				s = append(s, fmt.Sprintf("comment:%d", i))
+			}
 			for i := range c02EscSigma {
 				for j := range c02EscSigma {
 					s = append(s, fmt.Sprintf("esc:%d:%d", i, j))
@@ -199,7 +202,7 @@ func init() {
 			return s
 		},
 		Run:  c02Run,
-		Rule: "family A: every string over {< % > \\ = # a \" { \\n é} up to length L bare, and s1·TAG·s2 around each of 4 generated tags (|s1|<=3,|s2|<=2), compared with a left-to-right reference scanner that knows only the two escapes; templates whose reference scan meets a live <% that is not the generated tag are outside the grammar (totality only). Family B: <%= \"S\" %> / <%= `S` %> / let-bound / helper-argument string literals for every body S over {a \\ \" % > < # \\n é } space `} up to length L that the reference tokeniser closes at its own quote; expected = HTML-escape(denotation). Family C: every sequence of <=3 items from {text, output tag, 17 silent constructs (expression/let/assign/if/for/comment/line-comment/fn statements incl. values that are HTML)} in 10 placements (top, if, else, for, fn body, helper block, for+if, iterator loop ending in break, slice loop ending in continue, map loop ending in break); expected = the same sequence with silent items deleted. Non-trivial: contains an escape-relevant byte next to a boundary / a silent item.",
+		Rule: "family A: every string over {< % > \\ = # a \" { \\n é} up to length L bare, and s1·TAG·s2 around each of 4 generated tags (|s1|<=3,|s2|<=2), compared with a left-to-right reference scanner that knows only the two escapes; templates whose reference scan meets a live <% that is not the generated tag are outside the grammar (totality only). Family B: <%= \"S\" %> / <%= `S` %> / let-bound / helper-argument string literals for every body S over {a \\ \" % > < # \\n é } space `} up to length L that the reference tokeniser closes at its own quote; expected = HTML-escape(denotation). Family C: every sequence of <=3 items from {text, output tag, 17 silent constructs (expression/let/assign/if/for/comment/line-comment/fn statements incl. values that are HTML)} in 10 placements (top, if, else, for, fn body, helper block, for+if, iterator loop ending in break, slice loop ending in continue, map loop ending in break); expected = the same sequence with silent items deleted. Family D: comment tags whose body is any string of <=3 (4) symbols over {a \" ' # ` < % { } ( \\n space \\ = let 1.2.3} not containing the closing delimiter, spaced and tight, at top level and inside a block: the tag contributes nothing and the template continues after its %>. Non-trivial: contains an escape-relevant byte next to a boundary / a silent item.",
 		Bound: func(th bool) string {
 			if th {
 				return "A: bare |s|<=6, around |s1|<=3 |s2|<=2, core alphabet {\\ < % a} bare |s|<=10 and before/around a tag |s|<=8; B: |S|<=5; C: sequences <=3"
@@ -212,9 +215,45 @@ func init() {
 // c02EscSigma: the escape-relevant core alphabet, explored to a greater length.
 var c02EscSigma = []string{"\\", "<", "%", "a"}
 
+// c02CommentSigma: comment-tag bodies (anything but the closing delimiter is ignored).
+var c02CommentSigma = []string{"a", `"`, "'", "#", "`", "<", "%", "{", "}", "(", "\n", " ", `\`, "=", "let", "1.2.3"}
+
 func c02Run(t *engine.T, shard string) {
 	parts := strings.Split(shard, ":")
 	switch parts[0] {
+	case "comment":
+		var i int
+		fmt.Sscan(parts[1], &i)
+		L := 3
+		if t.Thorough {
+			L = 4
+		}
+		c02Strings(L-1, c02CommentSigma, func(s string) {
+			body := c02CommentSigma[i] + s
+			if strings.Contains(body, "%>") || strings.Contains(body+" ", "% >") && false {
+				return
+			}
+			for _, form := range []struct{ name, src, want string }{
+				{"top", `x<%# ` + body + ` %>y<%= "v" %>z`, "xyvz"},
+				{"tight", `x<%#` + body + `%>y`, "xy"},
+				{"in-block", `<%= if (true) { %>x<%# ` + body + ` %>y<% } %>z`, "xyz"},
+			} {
+				if strings.Contains(form.src[3:len(form.src)-len(form.want)], "%>"+"%>") {
+					continue
+				}
+				form := form
+				if strings.Count(form.src, "%>") != strings.Count(form.want, "")-len(form.want)-1+map[string]int{"top": 2, "tight": 1, "in-block": 3}[form.name] {
+					continue // the body (glued to the delimiter) formed an extra closing delimiter
+				}
+				t.Case("comment-tag "+form.name+" "+q(form.src), true, func() (string, *engine.Fail) {
+					out, err := Render(form.src, c02Context())
+					if err != nil || out != form.want {
+						return "", engine.Failf("mismatch", "a comment tag contributes nothing and ends at its closing delimiter: expected %q, got %q / %v", form.want, out, err)
+					}
+					return "match", nil
+				})
+			}
+		})
 	case "esc":
 		var i, j int
 		fmt.Sscan(parts[1], &i)
